@@ -20,7 +20,8 @@ TRUSTED = [
     "extraction: ExtrOcamlBasic only, no Extract Constant; positive/N/Z kept as Coq datatypes",
     "oracle/common/proto.ml + oracle/ctx/driver.ml (text protocol glue), OCaml 4.13.1",
     "Go harness harness/cmd/gvh/ctx.go; Python generator/diff in lib/props/C07.py",
-    "modelled not verified: Millis limits (clock) are excluded from correspondence and modelled with an arbitrary clock input; GC pool switching in Push/PopContext is not modelled",
+    "time limits: the manager's clock is replaced at BUILD time (go build -overlay of runtime/runtimecontextmanager.go regenerated from the current source by vlib.clock_overlay; /repo untouched) so that histories with Millis limits are compared exactly; the real clock and Go scheduling are not modelled",
+    "modelled not verified: GC pool switching in Push/PopContext; coroutines x contexts are modelled only as far as required flags (Ctx/CoroModel.v)",
 ]
 
 
@@ -545,6 +546,173 @@ def coro_stage(ck, gvh, n):
     return nviol
 
 
+# ---------------------------------------------------------------------------------------------------------------
+# histories with TIME limits.  The manager reads the clock through now(); the harness binary for this stage is built
+# with a go-build overlay (vlib.clock_overlay: regenerated from the current runtimecontextmanager.go on every run,
+# /repo untouched) in which now() returns a value set by the op "T <ms>".  Model: the same Ctx/Model.v step with its
+# `now` argument.  The comparison covers the Millis fields of every context on the chain after every operation.
+def rand_timed_history(rng):
+    n = 4 + rng.geometric(12, 50)
+    ops = []
+    depth = 0
+    clock = 0
+    for _ in range(n):
+        k = rng.below(100)
+        if k < 24:
+            lim = lambda small: (rng.below(small) if rng.chance(1, 2) else 0)
+            hms, sms = lim(60), lim(60)
+            hc, hm = (lim(40) if rng.chance(1, 3) else 0), (lim(40) if rng.chance(1, 4) else 0)
+            sc = lim(40) if rng.chance(1, 4) else 0
+            ops.append(("P", hc, hm, sc, 0, rng.below(16) if rng.chance(1, 4) else 0, rng.below(2), hms, sms))
+            depth += 1
+        elif k < 42 and depth > 0:
+            ops.append(("O",))
+            depth -= 1
+        elif k < 44:
+            ops.append(("O",))
+        elif k < 66:
+            # the clock only moves forward (mostly by a little; sometimes past every limit)
+            clock += rng.choice([0, 1, 1, 2, 3, 5, 8, 20, 100])
+            ops.append(("T", clock))
+        elif k < 90:
+            # time is looked at when the CPU counter passes a threshold (10000 ticks)
+            ops.append(("C", rng.choice([0, 1, 5, 9999, 10000, 10001, 20000, 3])))
+        elif k < 96:
+            ops.append(("M", rng.below(10)))
+        else:
+            ops.append(("S", rng.choice([1, 1, 2])))
+    return ops
+
+
+def parse_ctx_timed(s):
+    f = s.split(",")
+    d = parse_ctx(s)
+    d.update({"hms": int(f[9], 16), "sms": int(f[10], 16), "ums": int(f[11], 16)})
+    return d
+
+
+def timed_stage(ck, oracle, n):
+    ov, why = ck.clock_overlay()
+    if ov is None:
+        ck.violation("time-limit correspondence cannot be set up: " + why, {"kind": "translator", "detail": why}, no_input=True)
+        return 0
+    gvh, err = ck.build_gvh(tags=("verif", "verifclock"), name="gvh_clock", overlay=ov)
+    if gvh is None:
+        ck.violation("harness with the clock overlay does not build against /repo", {"kind": "build", "stderr": err[-3000:]}, no_input=True)
+        return 0
+    cases = []
+    cfile = vlib.os.path.join(vlib.VERIF, "corpus", "C07", "timed.hist")
+    if vlib.os.path.exists(cfile):
+        for l in open(cfile):
+            l = l.strip()
+            if l and not l.startswith("#"):
+                cases.append([tuple([t.split()[0]] + [int(x, 16) for x in t.split()[1:]]) for t in l.split(";") if t.strip()])
+    for _ in range(n):
+        cases.append(rand_timed_history(ck.rng))
+    lines = ["t%d %s" % (i, ";".join(op_str(o) for o in ops)) for i, ops in enumerate(cases)]
+    rc1, impl, e1 = vlib.run_lines(gvh, ["ctx", "timed"], lines, timeout=1800)
+    rc2, model, e2 = vlib.run_lines(oracle, ["timed"], lines, timeout=1800)
+    if rc1 != 0 or len(impl) != len(lines) or rc2 != 0 or len(model) != len(lines):
+        ck.violation("timed ctx engine or oracle crashed (%d/%d, %d/%d lines)" % (len(impl), len(lines), len(model), len(lines)),
+                     {"kind": "crash", "stderr": (e1 + e2)[-2000:]})
+        return 0
+    nviol = 0
+    nterm_time = 0
+    npop_term = 0
+    for ops, a, b in zip(cases, impl, model):
+        ck.case("timed:" + a.split(" ", 1)[0] + ";".join(op_str(o) for o in ops), True)
+        ck.count("timed-history")
+        if "term:time" in a:
+            nterm_time += 1
+        ra, rb = a.split(" ", 1)[1].split("|"), b.split(" ", 1)[1].split("|")
+        for idx, (op, x, y) in enumerate(zip(ops, ra, rb)):
+            if op[0] == "O" and x.startswith("term"):
+                npop_term += 1
+            if x != y:
+                nviol += 1
+                if nviol <= 3:
+                    ck.violation("time limits: implementation and model differ at op %d (%s) of a history with a controlled clock" % (idx, op_str(op)),
+                                 {"kind": "Go!=IM", "engine": "ctx-timed", "history": ";".join(op_str(o) for o in ops), "op_index": idx,
+                                  "impl": x, "model": y})
+                break
+    ck.cov["timed_stage"] = {"histories": len(cases), "with_time_termination": nterm_time, "pops_that_terminated": npop_term}
+    return nviol
+
+
+# Lua level with the controlled clock: nested callcontext / pcall with time limits; setclock(ms) moves the clock while a
+# child runs.  Independent predicates: the context stack is balanced afterwards (the top level is the root context
+# again), and a context object says 'done' exactly when its body ran to its end.
+def lua_timed_case(rng):
+    K = rng.choice([50, 100, 200])
+    w = lambda: rng.choice([0, 100, 1500, 3000, 6000, 12000])
+    t1 = rng.choice([0, 10, K - 1, K, K + 1, 3 * K])
+    t2 = rng.choice([t1, t1 + 1, K, 2 * K, 5 * K])
+    inner_def = rng.choice(["PCALL", "{}", "{kill={millis=%d}}" % rng.choice([10, K // 2, K, 2 * K]), "{kill={cpu=1000000}}"])
+    inner_body = "emit('i-start') work(%d) setclock(%d) work(%d) emit('i-end')" % (w(), t1, w())
+    if inner_def == "PCALL":
+        inner = "local ok=pcall(function() %s end) emit('inner-ret', ok and 'done' or 'error')" % inner_body
+    else:
+        inner = "local ic=runtime.callcontext(%s,function() %s end) emit('inner-ret', ic.status)" % (inner_def, inner_body)
+    src = ("local function work(n) local s=0 for i=1,n do s=s+i end return s end\n"
+           "emit('top-before', runtime.context().status, runtime.context().kill.millis or 0)\n"
+           "local oc=runtime.callcontext({kill={millis=%d}},function() emit('o-start') work(%d) %s work(%d) setclock(%d) work(%d) emit('o-end') end)\n"
+           "emit('outer', oc.status, oc.kill.millis or 0)\n"
+           "emit('top-after', runtime.context().status, runtime.context().kill.millis or 0)\n"
+           "work(20000) emit('top-end', runtime.context().status)" % (K, w(), inner, w(), t2, w()))
+    return src, {"K": K, "t1": t1, "t2": t2, "inner": inner_def}
+
+
+def lua_timed_stage(ck, n):
+    ov, why = ck.clock_overlay()
+    if ov is None:
+        return 0     # reported by timed_stage
+    gvh, err = ck.build_gvh(tags=("verif", "verifclock"), name="gvh_clock", overlay=ov)
+    if gvh is None:
+        return 0
+    cases = [lua_timed_case(ck.rng) for _ in range(n)]
+    outs = vlib.run_lines_resilient(gvh, ["lua"], ["Z%d %s" % (i, src.encode().hex()) for i, (src, _) in enumerate(cases)], per_case_timeout=30)
+    nviol = 0
+    stats = {"outer_killed": 0, "outer_done": 0, "inner_killed": 0}
+    for (src, meta), o in zip(cases, outs):
+        ck.case("lua-timed:" + src, True)
+        ck.count("lua-timed")
+        f = o.split(" ")
+        fails = []
+        if len(f) < 3 or f[1] != "ok":
+            fails.append("top-level chunk ended with status %s" % (f[1] if len(f) > 1 else "?"))
+            evs = []
+        else:
+            evs = [[dec_val(v) for v in e.split(",")] for e in f[2][2:].split(";")] if f[2] != "T:-" else []
+        tags = {e[0]: e for e in evs}
+        if not fails:
+            if "outer" not in tags or "top-after" not in tags or "top-end" not in tags:
+                fails.append("program did not reach its end: events %s" % [e[0] for e in evs])
+            else:
+                if tags["top-after"][1:] != tags["top-before"][1:] or tags["top-end"][1] != "live":
+                    fails.append("context stack not balanced: at top level before %s, after the outer context returned %s, at the end %s"
+                                 % (tags["top-before"][1:], tags["top-after"][1:], tags["top-end"][1:]))
+                ost = tags["outer"][1]
+                stats["outer_killed" if ost == "killed" else "outer_done"] += 1
+                if (ost == "done") != ("o-end" in tags):
+                    fails.append("outer context reports %s but its body %s its end" % (ost, "reached" if "o-end" in tags else "did not reach"))
+                if ost not in ("done", "killed"):
+                    fails.append("outer context reports %s" % ost)
+                if "inner-ret" in tags:
+                    ist = tags["inner-ret"][1]
+                    if ist == "killed":
+                        stats["inner_killed"] += 1
+                    if (ist == "done") != ("i-end" in tags):
+                        fails.append("inner context reports %s but its body %s its end" % (ist, "reached" if "i-end" in tags else "did not reach"))
+        if fails:
+            nviol += 1
+            if nviol <= 3:
+                ck.violation("time limits at Lua level: " + fails[0],
+                             {"kind": "Go!=S", "engine": "lua+clock", "program": src, "params": meta, "output": o[:1500], "failed_predicates": fails,
+                              "theorem": "C07_pop_always_pops / C07_status_truthful"})
+    ck.cov["lua_timed_stage"] = dict(stats, programs=len(cases))
+    return nviol
+
+
 def coq_crosscheck(ck, cases, model_lines, k=150):
     """Extraction cross-check: re-evaluate k histories INSIDE Coq (vm_compute on Ctx/Model.v) and compare the final
     manager state with what the extracted OCaml oracle printed.  Bounds the trust in extraction + driver glue."""
@@ -688,6 +856,8 @@ def run(tier, seed):
         coq_crosscheck(ck, cases, model, k=(40 if tier == "quick" else 600))
     lua_fail = lua_stage(ck, ck.build_gvh()[0], 400 if tier == "quick" else 6000)
     lua_fail += coro_stage(ck, ck.build_gvh()[0], 300 if tier == "quick" else 5000)
+    lua_fail += timed_stage(ck, oracle, 6000 if tier == "quick" else 100000)
+    lua_fail += lua_timed_stage(ck, 400 if tier == "quick" else 8000)
     ck.cov["lua_level_failures"] = lua_fail
     pred_fail += lua_fail
     if ndiff and not pred_fail:
